@@ -2344,6 +2344,14 @@ class SEVM:
         to: BV = uint160(ex.st.pop())
         fund: BV = ZERO if op in [OP_STATICCALL, OP_DELEGATECALL] else ex.st.popi()
 
+        # a CALL that transfers value is a state modification (EIP-214)
+        if op == OP_CALL and ex.message().is_static:
+            has_value = fund.is_non_zero()
+            if has_value.is_true:
+                raise WriteInStaticContext(ex.context_str())
+            if not has_value.is_false:
+                raise HalmosException(f"symbolic CALL value in static context: {fund}")
+
         arg_loc: int = ex.mloc(check_size=False)
         arg_size: int = ex.int_of(ex.st.pop(), "symbolic CALL input data size")
 
